@@ -172,6 +172,7 @@ def main() -> int:
     ap.add_argument("--budget", type=int, default=40)
     ap.add_argument("--seeded", action="store_true")
     ap.add_argument("--names", default="")
+    ap.add_argument("--verify-replay", action="store_true")
     a = ap.parse_args()
     only = {x for x in a.only.split(",") if x}
     names = {x for x in a.names.split(",") if x}
@@ -209,6 +210,17 @@ def main() -> int:
                 continue
             code, out, dt = run_check(prop, root, a.budget)
             verdict = {0: "SURVIVED", 1: "caught", 2: "HARNESS-ERROR"}.get(code, f"exit{code}")
+            if code == 1 and a.verify_replay:
+                # the replay file of the first violation must reproduce it in a fresh process
+                rp = next((l.split("replay=")[1].split()[0] for l in out.splitlines()
+                           if l.startswith("VIOLATION")), None)
+                rr = subprocess.run([sys.executable, os.path.join(HERE, "bin", "check.py"), prop,
+                                     "--replay", rp], env=dict(os.environ, VERIF_REPO=root),
+                                    capture_output=True, text=True) if rp else None
+                ok_r = rr is not None and rr.returncode == 1 and f"replay={rp}" in rr.stdout
+                verdict += "+replayed" if ok_r else "+REPLAY-FAILED"
+                if not ok_r:
+                    print((rr.stdout + rr.stderr)[-800:] if rr else "no replay path")
             cls = sorted({l.split("class=")[1].split()[0] for l in out.splitlines() if "class=" in l})
             print(f"{prop:4s} {name:42s} {verdict:14s} {dt:6.1f}s {','.join(cls)}", flush=True)
             if code == 2:
@@ -219,7 +231,7 @@ def main() -> int:
         for f in os.listdir(os.path.join(HERE, "replays")):
             if f.endswith(".json"):
                 os.remove(os.path.join(HERE, "replays", f))
-    surv = [r for r in results if r[2] != "caught"]
+    surv = [r for r in results if r[2] not in ("caught", "caught+replayed")]
     print(f"\n{len(results) - len(surv)}/{len(results)} planted defects caught; not caught: "
           f"{[(p, n, v) for p, n, v, _ in surv]}")
     return 0 if not surv else 1
